@@ -322,6 +322,7 @@ Fixpoint lim_scan (n : Z) (sc : list (list lop)) (l : list ev) (holders inside :
                           else ((r =? 2)%Z, holders, inside)
           | LReq _ => if (r =? 0)%Z then ((holders =? n)%Z, holders, inside)
                       else (true, (holders - 1)%Z, inside)
+          | LCancel _ => (true, holders, inside)   (* holders are counted from the handler bodies *)
           end
         else if (k =? 1)%Z then ((holders <? n)%Z && (inside <? n)%Z, (holders + 1)%Z, (inside + 1)%Z)
         else if (k =? 2)%Z then (true, holders, (inside - 1)%Z)
